@@ -577,56 +577,71 @@ enum RState {
 const RSTATES: [RState; 8] = [RState::New, RState::Start, RState::Waiting0, RState::Waiting1, RState::PartialSync, RState::Closed, RState::Resync, RState::Reset];
 
 /// (requester, session id, next expected index, accepts responses)
-fn make_requester(ctx: &mut Ctx, st: RState) -> (SyncRequester, u128, u64, bool) {
+/// `Err((clause, description))` when the requester does not behave as the protocol rules demand
+/// while being driven into the state: that is a finding about the requester, not a harness fault.
+fn make_requester(ctx: &mut Ctx, st: RState) -> Result<(SyncRequester, u128, u64, bool), (String, String)> {
     let g = ctx.w.graph;
     let sid = ctx.sid1;
-    let fail = |what: &str| -> ! { mcx::machinery_error(&format!("C18: cannot prepare requester state {st:?}: {what}")) };
+    let fail = |clause: &str, what: &str| -> Result<(SyncRequester, u128, u64, bool), (String, String)> {
+        Err((format!("{clause} (preparing requester state {st:?})"), what.to_string()))
+    };
     match st {
         RState::New | RState::Start => {
             let rng = CtrRng::new(ctx.seed, RNG_STREAM);
             let mut rq = SyncRequester::new(g, &rng);
             if st == RState::Start {
                 let cache = PeerCache::new();
-                if rq.poll(&mut ctx.out, ctx.b.client.provider(), &cache.session_heads(), &mut ctx.b.buffers.traversal.primary).is_err() {
-                    fail("poll");
+                if let Err(e) = rq.poll(&mut ctx.out, ctx.b.client.provider(), &cache.session_heads(), &mut ctx.b.buffers.traversal.primary) {
+                    return fail("first-poll-fails", &format!("the first poll of a new requester failed: {e}"));
                 }
             }
-            (rq, sid, 0, st == RState::Start)
+            Ok((rq, sid, 0, st == RState::Start))
         }
-        RState::WaitingSid(s) => (SyncRequester::new_session_id(g, s as u128), s as u128, 0, true),
+        RState::WaitingSid(s) => Ok((SyncRequester::new_session_id(g, s as u128), s as u128, 0, true)),
         _ => {
             let mut rq = SyncRequester::new_session_id(g, sid);
             match st {
-                RState::Waiting0 => (rq, sid, 0, true),
+                RState::Waiting0 => Ok((rq, sid, 0, true)),
                 RState::Waiting1 => {
                     if !matches!(rq.receive(&ctx.prep_resp0), Ok(Some(_))) {
-                        fail("first response");
+                        return fail("in-sequence-response-refused", "a response with index 0 of the right session was not accepted by a waiting requester");
                     }
-                    (rq, sid, 1, true)
+                    Ok((rq, sid, 1, true))
                 }
                 RState::PartialSync => {
                     if !matches!(rq.receive(&ctx.prep_end0), Ok(None)) {
-                        fail("end");
+                        return fail("in-sequence-end-refused", "SyncEnd(max_index 0) of the right session was not accepted by a requester that received no response");
                     }
-                    (rq, sid, 0, false)
+                    Ok((rq, sid, 0, false))
                 }
                 RState::Closed => {
                     if !matches!(rq.receive(&ctx.prep_endsession), Ok(None)) {
-                        fail("end session");
+                        return fail("end-session-refused", "EndSession of the right session was not accepted");
                     }
-                    (rq, sid, 0, false)
+                    Ok((rq, sid, 0, false))
                 }
                 RState::Resync | RState::Reset => {
-                    if !matches!(rq.receive(&ctx.prep_resp7), Err(SyncError::MissingSyncResponse)) {
-                        fail("out-of-order response");
+                    match rq.receive(&ctx.prep_resp7) {
+                        Err(SyncError::MissingSyncResponse) => {}
+                        Ok(Some(c)) => return fail("out-of-sequence", &format!("a response with index 7 was accepted ({} commands) while index 0 was expected", c.len())),
+                        other => {
+                            return fail("out-of-sequence", &format!("a response with index 7 while index 0 was expected answered {:?} instead of MissingSyncResponse", other.map(|o| o.map(|c| c.len())).map_err(|e| sync_err_class(&e))))
+                        }
                     }
                     if st == RState::Reset {
                         let cache = PeerCache::new();
-                        if rq.poll(&mut ctx.out, ctx.b.client.provider(), &cache.session_heads(), &mut ctx.b.buffers.traversal.primary).is_ok() {
-                            fail("resume without a received response should fail");
+                        if let Ok((n, _)) = rq.poll(&mut ctx.out, ctx.b.client.provider(), &cache.session_heads(), &mut ctx.b.buffers.traversal.primary) {
+                            let what = match dec_type(&ctx.out[..n]) {
+                                Ok((WType::Poll { request }, _)) => format!("{request:?}"),
+                                other => format!("{other:?}"),
+                            };
+                            return fail(
+                                "resume-names-unreceived-response",
+                                &format!("after an out-of-sequence response and with no response ever received, poll produced {what}; SyncResume must name the last response received, so there is nothing to resume from"),
+                            );
                         }
                     }
-                    (rq, sid, 0, false)
+                    Ok((rq, sid, 0, false))
                 }
                 _ => unreachable!(),
             }
@@ -637,7 +652,14 @@ fn make_requester(ctx: &mut Ctx, st: RState) -> (SyncRequester, u128, u64, bool)
 /// `SyncRequester::receive` in one requester state.
 fn eval_receive(ctx: &mut Ctx, st: RState, name: &str, input: &[u8], t: &mut Tally) {
     let target = format!("receive[{st:?}]");
-    let (mut rq, sid, expected, accepting) = make_requester(ctx, st);
+    let (mut rq, sid, expected, accepting) = match make_requester(ctx, st) {
+        Ok(x) => x,
+        Err(_) => {
+            // reported once by `check_requester_states`; nothing can be judged in this state
+            *t.outcomes.entry(format!("{target}:state-not-reachable")).or_insert(0) += 1;
+            return;
+        }
+    };
     // what the message says, read independently
     let claimed = dec_resp(input).ok().map(|(m, _)| m);
     let r = mcx::catch(|| -> (String, bool, Vec<(String, String)>, u64) {
@@ -759,6 +781,270 @@ fn eval_input(ctx: &mut Ctx, inp: &Input, t: &mut Tally) {
             eval_subres(&inp.name, &inp.bytes, t);
         }
     }
+}
+
+
+/// One step of a requester history.
+#[derive(Clone)]
+enum Ev {
+    /// deliver a message: (name, bytes, Some(index) for a response / None for an end, max_index for an end, commands it carries)
+    Msg { name: String, bytes: Vec<u8>, resp_index: Option<u64>, end_max: u64, ncmds: usize },
+    /// call `poll` (what a transport does when `ready()`), reading a resume request through the mirror
+    Poll,
+}
+
+impl Ev {
+    fn name(&self) -> &str {
+        match self {
+            Ev::Msg { name, .. } => name,
+            Ev::Poll => "POLL",
+        }
+    }
+}
+
+#[derive(Default)]
+struct HistTally {
+    histories: u64,
+    steps: u64,
+    outcomes: BTreeMap<String, u64>,
+    /// clause -> (count, minimal history, description)
+    faults: BTreeMap<String, (u64, String, String)>,
+    accepted_in_sequence: u64,
+    rejected_out_of_sequence: u64,
+    resumes: u64,
+    accepted_after_resume: u64,
+}
+
+impl HistTally {
+    fn fault(&mut self, clause: &str, hist: String, desc: String) {
+        match self.faults.get_mut(clause) {
+            None => {
+                self.faults.insert(clause.to_string(), (1, hist, desc));
+            }
+            Some((n, best, d)) => {
+                *n += 1;
+                if (hist.len(), &hist) < (best.len(), best) {
+                    *best = hist;
+                    *d = desc;
+                }
+            }
+        }
+    }
+    fn merge(mut self, o: HistTally) -> HistTally {
+        self.histories += o.histories;
+        self.steps += o.steps;
+        for (k, v) in o.outcomes {
+            *self.outcomes.entry(k).or_insert(0) += v;
+        }
+        for (k, (n, h, d)) in o.faults {
+            match self.faults.get_mut(&k) {
+                None => {
+                    self.faults.insert(k, (n, h, d));
+                }
+                Some((m, best, bd)) => {
+                    *m += n;
+                    if (h.len(), &h) < (best.len(), best) {
+                        *best = h;
+                        *bd = d;
+                    }
+                }
+            }
+        }
+        self.accepted_in_sequence += o.accepted_in_sequence;
+        self.rejected_out_of_sequence += o.rejected_out_of_sequence;
+        self.resumes += o.resumes;
+        self.accepted_after_resume += o.accepted_after_resume;
+        self
+    }
+}
+
+/// Run one history on a fresh requester. Oracle (statement): commands are returned only for a
+/// response whose index is exactly the number of responses accepted so far; any other index
+/// gives an error and no commands (so after a gap nothing later is accepted until the missing
+/// response itself arrives); an end message is accepted only when its max_index equals the
+/// number of responses accepted; a resume request names the last response actually received
+/// (the wire type's own definition of `SyncResume.response_index`) and cannot exist before any
+/// response was received.
+fn run_history(rq: &mut SyncRequester, a: &mut MemReplica, out: &mut [u8], family: &str, events: &[Ev], seq: &[usize], t: &mut HistTally) {
+    t.histories += 1;
+    let mut accepted: u64 = 0;
+    let mut resumed = false;
+    let hist = |upto: usize| format!("{family}: {}", seq[..=upto].iter().map(|&i| events[i].name()).collect::<Vec<_>>().join(","));
+    for (k, &ei) in seq.iter().enumerate() {
+        t.steps += 1;
+        match &events[ei] {
+            Ev::Poll => {
+                let cache = PeerCache::new();
+                let res = mcx::catch(|| rq.poll(out, a.client.provider(), &cache.session_heads(), &mut a.buffers.traversal.primary));
+                match res {
+                    Err(msg) => {
+                        t.fault("panic (history poll)", hist(k), format!("poll panicked: {msg} at {}", mcx::last_panic_location()));
+                        return;
+                    }
+                    Ok(Err(e)) => *t.outcomes.entry(format!("history:poll:err:{}", sync_err_class(&e))).or_insert(0) += 1,
+                    Ok(Ok((n, _))) => match dec_type(&out[..n]) {
+                        Ok((WType::Poll { request: WReq::SyncResume { response_index, .. } }, _)) => {
+                            t.resumes += 1;
+                            resumed = true;
+                            *t.outcomes.entry("history:poll:resume".into()).or_insert(0) += 1;
+                            if accepted == 0 || response_index != accepted - 1 {
+                                t.fault(
+                                    "resume-names-unreceived-response (history)",
+                                    hist(k),
+                                    format!("poll produced SyncResume(response_index {response_index}) after {accepted} responses had been received"),
+                                );
+                                // keep going: what the requester accepts afterwards is judged on its own
+                            }
+                        }
+                        Ok((WType::Poll { request }, _)) => {
+                            *t.outcomes.entry(format!("history:poll:{}", match request { WReq::SyncRequest { .. } => "request", WReq::EndSession { .. } => "end-session", _ => "other" })).or_insert(0) += 1
+                        }
+                        other => mcx::machinery_error(&format!("C18 history: mirror cannot read a real poll: {other:?}")),
+                    },
+                }
+            }
+            Ev::Msg { bytes, resp_index, end_max, ncmds, .. } => {
+                let res = mcx::catch(|| rq.receive(bytes).map(|o| o.map(|c| c.len())));
+                let res = match res {
+                    Err(msg) => {
+                        t.fault("panic (history receive)", hist(k), format!("receive panicked: {msg} at {}", mcx::last_panic_location()));
+                        return;
+                    }
+                    Ok(r) => r,
+                };
+                let class = match &res {
+                    Ok(Some(_)) => "commands".to_string(),
+                    Ok(None) => "none".to_string(),
+                    Err(e) => format!("err:{}", sync_err_class(e)),
+                };
+                *t.outcomes.entry(format!("history:{}:{class}", if resp_index.is_some() { "response" } else { "end" })).or_insert(0) += 1;
+                match (resp_index, &res) {
+                    (Some(i), Ok(Some(n))) => {
+                        if *i != accepted {
+                            t.fault(
+                                "out-of-sequence (history)",
+                                hist(k),
+                                format!("response {i} was accepted ({n} commands) although {accepted} responses had been accepted before it: its predecessor was never delivered"),
+                            );
+                            return;
+                        }
+                        if n != ncmds {
+                            t.fault("wrong-commands (history)", hist(k), format!("response {i} carries {ncmds} commands, receive returned {n}"));
+                            return;
+                        }
+                        accepted += 1;
+                        t.accepted_in_sequence += 1;
+                        if resumed {
+                            t.accepted_after_resume += 1;
+                        }
+                    }
+                    (Some(i), Ok(None)) => {
+                        t.fault("out-of-sequence (history)", hist(k), format!("response {i} answered Ok(None)"));
+                        return;
+                    }
+                    (Some(i), Err(_)) => {
+                        if *i != accepted {
+                            t.rejected_out_of_sequence += 1;
+                        }
+                    }
+                    (None, Ok(None)) => {
+                        if *end_max != accepted {
+                            t.fault("out-of-sequence (history)", hist(k), format!("SyncEnd(max_index {end_max}) was accepted after {accepted} responses"));
+                            return;
+                        }
+                    }
+                    (None, Ok(Some(n))) => {
+                        t.fault("out-of-sequence (history)", hist(k), format!("an end message returned {n} commands"));
+                        return;
+                    }
+                    (None, Err(_)) => {}
+                }
+            }
+        }
+    }
+}
+
+/// All sequences over `events` of length 1..=max_len, in parallel.
+fn all_histories(w: &Arc<World>, seed: u64, family: &str, events: &[Ev], max_len: usize, real_session: bool) -> HistTally {
+    let k = events.len();
+    let mut seqs: Vec<Vec<usize>> = Vec::new();
+    for len in 1..=max_len {
+        mcx::enumerate::sequences(k, len, |s| seqs.push(s.to_vec()));
+    }
+    let sid1 = drawn_session_id(seed, w);
+    seqs.par_chunks(256)
+        .map_init(
+            || (MemReplica::new_mem(w.graph), vec![0u8; MAX_SYNC_MESSAGE_SIZE]),
+            |(a, out), chunk| {
+                let mut t = HistTally::default();
+                for seq in chunk {
+                    let mut rq = if real_session {
+                        // the requester of the recorded session: new + first poll (same session id)
+                        let rng = CtrRng::new(seed, RNG_STREAM);
+                        let mut rq = SyncRequester::new(w.graph, &rng);
+                        let cache = PeerCache::new();
+                        if rq.poll(out, a.client.provider(), &cache.session_heads(), &mut a.buffers.traversal.primary).is_err() {
+                            mcx::machinery_error("C18 history: first poll failed");
+                        }
+                        rq
+                    } else {
+                        SyncRequester::new_session_id(w.graph, sid1)
+                    };
+                    run_history(&mut rq, a, out, family, events, seq, &mut t);
+                }
+                t
+            },
+        )
+        .reduce(HistTally::default, HistTally::merge)
+}
+
+/// A real session with exactly three responses and an end message (2*COMMAND_RESPONSE_MAX + 3
+/// commands in one chain, requester without the graph), recorded from the real responder.
+fn real_three_response_session(seed: u64) -> (Arc<World>, Vec<Ev>) {
+    use rtlib::rt::COMMAND_RESPONSE_MAX;
+    let w = Arc::new(World::new(fan(1, 2 * COMMAND_RESPONSE_MAX + 2), "chain".into()));
+    let mut b = build(&w, &w.full(), Layout::Coarse).unwrap_or_else(|e| mcx::machinery_error(&format!("C18 history build: {e}")));
+    let mut a = MemReplica::new_mem(w.graph);
+    let mut buf = vec![0u8; MAX_SYNC_MESSAGE_SIZE];
+    let rng = CtrRng::new(seed, RNG_STREAM);
+    let cache = PeerCache::new();
+    let mut rq = SyncRequester::new(w.graph, &rng);
+    let (len, _) = rq.poll(&mut buf, a.client.provider(), &cache.session_heads(), &mut a.buffers.traversal.primary).unwrap_or_else(|e| mcx::machinery_error(&format!("C18 history poll: {e}")));
+    let mut responder = SyncResponder::new();
+    match SyncIncoming::decode(&buf[..len]) {
+        Ok(SyncIncoming::Poll(p)) => responder.receive(p).unwrap_or_else(|e| mcx::machinery_error(&format!("C18 history receive: {e}"))),
+        _ => mcx::machinery_error("C18 history: request does not decode"),
+    }
+    let mut rcache = PeerCache::new();
+    let mut events = Vec::new();
+    while responder.ready() {
+        let n = responder.poll(&mut buf, b.client.provider(), &mut rcache, &mut b.buffers.traversal).unwrap_or_else(|e| mcx::machinery_error(&format!("C18 history responder poll: {e}")));
+        match dec_resp(&buf[..n]) {
+            Ok((WResp::SyncResponse { response_index, commands, .. }, _)) => {
+                events.push(Ev::Msg { name: format!("R{response_index}"), bytes: buf[..n].to_vec(), resp_index: Some(response_index), end_max: 0, ncmds: commands.len() })
+            }
+            Ok((WResp::SyncEnd { max_index, .. }, _)) => events.push(Ev::Msg { name: "END".into(), bytes: buf[..n].to_vec(), resp_index: None, end_max: max_index, ncmds: 0 }),
+            other => mcx::machinery_error(&format!("C18 history: unexpected message {other:?}")),
+        }
+    }
+    if events.len() != 4 {
+        mcx::machinery_error(&format!("C18 history: expected 3 responses and an end, got {} messages", events.len()));
+    }
+    events.push(Ev::Poll);
+    (w, events)
+}
+
+/// Hand-encoded responses with indexes 0..=3 (one real command each), ends, and polls.
+fn encoded_index_events(w: &World, sid: u128) -> Vec<Ev> {
+    let mut events = Vec::new();
+    for i in 0..4u64 {
+        let (m, payload) = meta_of(w, 1 + (i as usize % 4));
+        let mut bytes = enc(&WResp::SyncResponse { session_id: sid, response_index: i, commands: vec![m] });
+        bytes.extend(payload);
+        events.push(Ev::Msg { name: format!("I{i}"), bytes, resp_index: Some(i), end_max: 0, ncmds: 1 });
+    }
+    events.push(Ev::Poll);
+    events
 }
 
 /// Sequence clause on valid messages: all sequences of ≤ 3 messages over responses with index
@@ -985,6 +1271,31 @@ pub fn run(args: &Args) {
         .reduce(Tally::default, Tally::merge);
     let mut tally = tally;
     sequence_model(&mut ctx0, &mut tally);
+    // every requester state must be reachable the way the protocol rules say; a requester that
+    // does not follow them is reported (once), not treated as a harness fault
+    for st in RSTATES {
+        if let Err((clause, desc)) = make_requester(&mut ctx0, st) {
+            tally.fault(clause, &[], desc, "requester state preparation");
+        }
+    }
+    // multi-step requester histories
+    let (hw, real_events) = real_three_response_session(args.seed);
+    let mut hist = all_histories(&hw, args.seed, "real 3-response session", &real_events, args.tier.pick(6, 7), true);
+    let enc_events = encoded_index_events(&w, sid1);
+    hist = hist.merge(all_histories(&w, args.seed, "encoded indexes", &enc_events, args.tier.pick(5, 6), false));
+    rep.count("requester_histories", hist.histories);
+    rep.count("requester_history_steps", hist.steps);
+    rep.count("history_responses_accepted_in_sequence", hist.accepted_in_sequence);
+    rep.count("history_responses_rejected_out_of_sequence", hist.rejected_out_of_sequence);
+    rep.count("history_resume_requests", hist.resumes);
+    rep.count("history_responses_accepted_after_resume", hist.accepted_after_resume);
+    tally.evaluations += hist.steps;
+    for (k, v) in &hist.outcomes {
+        *tally.outcomes.entry(k.clone()).or_insert(0) += v;
+    }
+    for (clause, (n, h, desc)) in &hist.faults {
+        rep.violation(format!("{clause} [min history {h}]"), format!("{desc}; history [{h}]; {n} failing histories, minimal one shown"), json!({"history": h, "clause": clause}));
+    }
 
     rep.count("evaluations", tally.evaluations);
     rep.set("distinct_nontrivial", tally.nontrivial.len() as u64);
@@ -1017,6 +1328,9 @@ pub fn run(args: &Args) {
         rep.require_nonzero("missing_response_answers");
         rep.require_nonzero("malformed_response_answers");
         rep.require_nonzero("responder_replies");
+        rep.require_nonzero("history_responses_rejected_out_of_sequence");
+        rep.require_nonzero("history_resume_requests");
+        rep.require_nonzero("history_responses_accepted_after_resume");
     }
     rep.finish()
 }
